@@ -504,6 +504,19 @@ class Cache:
             raise RuntimeError(
                 'Error parsing cache file {:s}'.format(filename))
 
+        # Reject a file whose fields have the wrong types right away, rather than
+        # failing halfway through a build or a clean operation.
+        created_dirs = cache_json.get('createdDirs')
+        if (not isinstance(cache_json.get('buildName'), str) or
+                not isinstance(created_dirs, list) or
+                not all(isinstance(dir_, str) for dir_ in created_dirs) or
+                not isinstance(cache_json.get('funcVersions'), dict) or
+                not isinstance(cache_json.get('operationVersions'), dict) or
+                not isinstance(cache_json.get('rootOperations'), list) or
+                'cacheFileVersion' not in cache_json):
+            raise RuntimeError(
+                'Error parsing cache file {:s}'.format(filename))
+
         if not JsonUtil.is_equal(
                 cache_json['cacheFileVersion'], Cache._CACHE_FILE_VERSION):
             raise RuntimeError(
